@@ -172,6 +172,15 @@ def xml2dict(string):
     return _recurse(root)
 
 
+def as_list(item):
+    """xml2dict() gives a single item for a tag present once and a list for a tag
+    present several times. Normalise to a list (empty if the tag is absent)
+    """
+    if item is None:
+        return []
+    return item if isinstance(item, list) else [item]
+
+
 def kvn2dict(string):
     """Convert KVN (Key-Value Notation) to a dictionnary for easy reuse
 
